@@ -23,6 +23,7 @@ RULE = (
     "runs full domains on all types. non-trivial = exactly one device was delivered and compared; distinct by (type, encoded fields)."
 )
 ASSUMPTIONS = [
+    "bytes outside the modelled fields are swept too and must not influence the decoded device (byte 136 of shutter frames is left alone: the pinned decoder reads it as a decimal supplement of the position, which the statement does not describe)",
     "reference encoder = real captures with fields at protocol offsets; the three captures re-encode byte for byte from their legible values",
     "last_data_update and attributes not named in the statement are ignored; a shutter's on/off state is not judged",
     "amps judged as |amps - watts/220| <= 0.05 with one decimal",
@@ -130,6 +131,13 @@ def cases_for(tname, tier, primary, seed=0):
         for r in ("ELEC7022", "ELEC7001", "ZM079055", "DLK21234", "00000000", "AbCdEfGh", "12345678", "ZZZZZZZZ"):
             cs.append({"remote": r})
             cs.append({"remote": r, "on": False, "mode": "heat"})
+    # bytes that carry no modelled field (reserved / unknown to the protocol description) must not matter
+    n = {"heater": 165, "plug": 165, "breeze": 168, "runner": 159}[fam]
+    mod = B.modelled_offsets(tname)
+    for off in range(4, n - 4):
+        if off not in mod:
+            for v in ((0x01, 0x80, 0xFF) if wide else (0xFF,)):
+                cs.append({"poke": [[off, v]], "on": off % 2 == 0})
     # pairwise corners between neighbouring identity fields
     for k, ipb, macb in itertools.product((0, 0xFF), (0, 0xFF), (0, 0xFF)):
         cs.append({"key": k, "ip": [ipb, 1, 2, ipb], "mac": [macb, 1, 2, 3, 4, macb], "device_id": "%02x00%02x" % (macb, k)})
